@@ -113,7 +113,7 @@ func NewDG2(data []byte) (*DG2, error) {
 				return nil, fmt.Errorf("[NewDG2] processBIT error: %w", err)
 			}
 
-			out.Images = tmpImages
+			out.Images = append(out.Images, tmpImages...)
 			out.BITs = append(out.BITs, *tmpBIT)
 		}
 	}
